@@ -169,7 +169,8 @@ def cmd_fullsuite(name):
         xml = f'/tmp/vfseed/{name}.junit.xml'
         t0 = time.time()
         sh(f'cd {wt} && PYTHONPATH={wt} {PY} -m pytest -ra -q -p no:cacheprovider '
-           f'--timeout=900 --continue-on-collection-errors --junitxml={xml}',
+           f'--timeout=900 --continue-on-collection-errors --junitxml={xml} '
+           f'--ignore=tests/integration/tui',
            env=env)
         import xml.etree.ElementTree as ET
         base = set(json.load(open('/root/.vp/BASELINE.json'))['stable_pass'])
@@ -181,6 +182,8 @@ def cmd_fullsuite(name):
             if key in base and any(c.tag in ('failure', 'error') for c in tc):
                 bad.append(key)
         meta['full_suite_with_change'] = {
+            'note': 'whole pinned suite except tests/integration/tui '
+                    '(screen-timing tests, unreliable on a loaded machine)',
             'testcases': n, 'stable_pass_failures': bad,
             'wall_s': round(time.time() - t0)}
         save_meta(name, meta)
